@@ -82,6 +82,11 @@ impl BRC20ProgEngine {
             }
         }
 
+        // The genesis block can only be the next block, check before executing anything
+        if genesis_height != self.get_next_block_height()? {
+            return Err("Genesis height is not the next block height".into());
+        }
+
         // Deploy BRC20 Controller contract
         let result = self.add_tx_to_block(
             genesis_timestamp,
